@@ -20,9 +20,15 @@ TRUSTED = [
     "the addon verdict is an oracle of the model (harness: an addon object swallowing simulator events with an odd number)",
     "out of the model: LLSD (de)serialisation, message_handler/addon side effects of _handle_eq_event, the wake-up PlacesQuery of "
     "inject_event (only checked to be emitted on the circuit), exceptions inside the response branch (malformed bodies)",
-    "delivered_stream is proved at the proxy boundary (fresh responses; cache answers shown to be verbatim earlier bodies); the "
-    "composition with a viewer that loses responses and re-polls is not a Coq theorem - it is checked on the implementation by the "
-    "history oracle of this harness (viewer simulation with lost responses)",
+    "composition theorem (C17_viewer_stream / C17_viewer_caught_up): the simulator and the viewer are an environment model "
+    "(end of Http/EventQueue.v), not code of /repo: the simulator sends every batch at most once, in order, with pairwise distinct "
+    "ids and never re-sends (sim_ok + the y_sim discipline); the viewer polls with the id of the last response it received, may "
+    "lose any response, re-polls with the same ack and accepts an id once; the harness runs the same scenario on the real handlers "
+    "(viewer_check)",
+    "placement of injected events inside a response: the statement ('delivered exactly once, in the next response that carries "
+    "events'; simulator events 'in order') fixes the order among simulator events and among injected events, not their "
+    "interleaving; the oracle therefore accepts any interleaving, while the model follows the code (kept simulator events first, "
+    "then the queue) - a change of placement shows up as a model disagreement only (mutant c17-m5)",
     "register_once is proved for Session.register_region (Caps.v model, shared with C16); the mapping from "
     "EstablishAgentCommunication/EnableSimulator/TeleportFinish/CrossedRegion bodies to its arguments is exercised on the real code only",
 ]
